@@ -1,5 +1,8 @@
 #!/bin/bash
-# Re-check every compiled Properties library (and everything it depends on) with the independent checker; print the axiom summary.
+# Re-check every compiled Properties library (and everything it depends on) with the independent checker coqchk; one line per library
+# with its axiom summary.  (One coqchk process per library: a single process over all of them trips over equally named modules.)
 cd /verif/coq || exit 2
-libs=$(ls theories/Properties/*.vo | sed 's#theories/Properties/\(.*\)\.vo#SF.Properties.\1#')
-timeout 3000 coqchk -o -silent -Q theories SF -Q generated SFGen $libs 2>&1 | tail -20
+for l in $(ls theories/Properties/*.vo | sed 's#theories/Properties/\(.*\)\.vo#\1#'); do
+  r=$(timeout 900 coqchk -o -silent -Q theories SF -Q generated SFGen SF.Properties.$l 2>&1 | grep -E "Fatal|Axioms:|type-in-type|unsafe|positivity" | tr '\n' ' ')
+  echo "SF.Properties.$l: $r"
+done
